@@ -184,6 +184,10 @@ func init() {
 				for len(queue) > 0 {
 					h := queue[0]
 					queue = queue[1:]
+					parentKey := ""
+					if ps, _ := c31Replay(c31Case{Prog: pn, History: h}); ps != nil && ps.ListView() != nil {
+						parentKey = fmt.Sprintf("%s@%d", ps.CodeKey(), ps.ListView().Cursor.Value())
+					}
 					for _, m := range menu {
 						hh := append(append([]uiLine{}, h...), uiLine{Line: m})
 						s, f := c31Replay(c31Case{Prog: pn, History: hh})
@@ -197,6 +201,19 @@ func init() {
 						}
 						// state key without marks: (code, cursor)
 						k := fmt.Sprintf("%s@%d", s.CodeKey(), s.ListView().Cursor.Value())
+						if k == parentKey {
+							// nothing visible changed (typically a refused command): the same command again,
+							// and then an accepted search, show what the first attempt left behind
+							for _, tailCmd := range [][]uiLine{{{Line: m}}, {{Line: m}, {Line: "f addi"}}} {
+								_, f3 := c31Replay(c31Case{Prog: pn, History: append(append([]uiLine{}, hh...), tailCmd...)})
+								r.Eval(1)
+								r.Trans(len(tailCmd))
+								if f3 != nil {
+									r.Report(f3)
+									r.Outcome(f3.Sig)
+								}
+							}
+						}
 						if !seen[k] {
 							seen[k] = true
 							queue = append(queue, hh)
